@@ -68,6 +68,9 @@ TOPO = {
     "t1": dict(_COMMON, devices={"bd_trough": _TROUGH, "bd_plunger": _PLUNGER}, balls={"bd_trough": 2}),
     "t1r": dict(_COMMON, devices={"bd_trough": _TROUGH, "bd_plunger": dict(_PLUNGER, shot=True)}, balls={"bd_trough": 2}, config="t1"),
     "t1m": dict(_COMMON, devices={"bd_trough": _TROUGH, "bd_plunger": dict(_PLUNGER, mechanical=True)}, balls={"bd_trough": 2}),
+    "t4": dict(_COMMON, drain="bd_outhole", balls={"bd_trough": 2},
+               devices={"bd_outhole": {"switches": ["s_outhole"], "coil": "c_outhole", "target": "bd_trough", "eject_timeout": 3.0},
+                        "bd_trough": {"switches": ["s_t1", "s_t2", "s_t3"], "coil": "c_trough", "target": "playfield", "eject_timeout": 4.0}}),
     "t2": dict(_COMMON, devices={"bd_trough": _TROUGH, "bd_plunger": _PLUNGER,
                                  "bd_lock": {"entrance": "s_lock_entrance", "capacity": 2, "coil": "c_lock", "target": "playfield",
                                              "eject_timeout": 4.0, "shot": True}}, balls={"bd_trough": 2}),
@@ -85,10 +88,11 @@ SCRIPTS = {
     "saucer-shot": ("t3", None, [["start"], ["shoot", "bd_saucer"], ["drain"]]),
     "plunger-lane-return": ("t1r", None, [["start"], ["add"], ["shoot", "bd_plunger"], ["drain"], ["drain"]]),
     "over-request": ("t1", None, [["start"], ["add"], ["add"], ["drain"], ["drain"], ["drain"]]),
+    "outhole": ("t4", None, [["start"], ["add"], ["drain"], ["drain"]]),
     "two-attempts": ("t1", {"ball_devices": {"bd_plunger": {"max_eject_attempts": 2}}}, [["start"], ["drain"]]),
 }
 QUICK_SCRIPTS = ("one-ball-game", "two-balls-in-play", "mechanical-plunger", "lock-shot", "saucer-shot", "plunger-lane-return",
-                 "over-request")
+                 "over-request", "outhole")
 MAX_REST_STEPS = 400
 
 
